@@ -234,9 +234,8 @@ func c09Amount(b *jb, r *rand.Rand, c *c09Comm, site string, neg bool) {
 				}
 				b.w(num)
 			case 2:
-				if neg {
-					b.w("-")
-				}
+				// no sign here: renaming "-$ 5" to a letter commodity gives "-XYZ 5", which the
+				// lexer does not read as an amount (a parser limitation, C03)
 				b.sym(kCommodity, c.sym, lex, false, site, fl)
 				b.w(" " + num)
 			default:
@@ -943,7 +942,7 @@ func c09NewName(r *rand.Rand, k int) string {
 	case kCommodity:
 		return pick(r, []string{"XYZ", "CHF", "£", "NEWC"})
 	default:
-		return pick(r, []string{"Renamed Payee", "New shop", "Bäckerei"})
+		return pick(r, []string{"Renamed Payee", "New shop", "Baeckerei Süd"})
 	}
 }
 
@@ -993,7 +992,16 @@ func (s *c09Session) genReqs(c *Ctx, r *rand.Rand, rename bool) []c09Req {
 				c.Count("rename.site=" + sp.Site)
 			}
 			if r.IntN(4) == 0 {
-				reqs = append(reqs, c09Req{f.Path, uint32(r.IntN(6)), uint32(r.IntN(30)), true, "x:y"})
+				// a random position; the new name suits whatever is there
+				l, ch := r.IntN(6), r.IntN(30)
+				nn := "x:y"
+				for _, sp := range spans {
+					if sp.Line == l && sp.C0 <= ch && ch <= sp.C1 {
+						nn = c09NewName(r, sp.K)
+					}
+				}
+				reqs = append(reqs, c09Req{f.Path, uint32(l), uint32(ch), true, nn})
+				c.Count("rename.random")
 			}
 			continue
 		}
